@@ -10,7 +10,7 @@ def gen(rng, n, tier):
 
 register(PropSpec(
     "C06",
-    engines=[EngineSpec("exec", gen, mon_exec.mon_c06, mon_exec.tags_c04, quick_n=250, thorough_n=6000)],
+    engines=[EngineSpec("exec", gen, mon_exec.mon_c06, mon_exec.tags_c04, quick_n=250, thorough_n=6000, mask=mon_exec.mask_unmodelled)],
     rule="exec engine: requests with timeouts 0/1/2/3/4/10/huge/negative, receipts before/at/after H+T, several requests sharing a deadline, "
          "restarts; per block the TimeoutCounter and per id the status are compared with the protocol; non-trivial = a timeout fired or a status edge was seen",
 ))
